@@ -494,3 +494,6 @@ def finish(stats, tier):
     if not stats.get("counters", {}).get("edits_during_a_run"):
         return ["no edit was applied while a cached run was in progress"]
     return []
+
+
+RULE += " Since round 11 also: initial modification times on a 1 s / 2 s grid with edits 1 ... 2000 ms after the file's own time."
